@@ -68,6 +68,18 @@ def cache_flow(ctx: Ctx) -> RuleResult:
                 sel = [t for t in extra if any(isinstance(x, ast.Attribute) and x.attr in ("graph", "target_nodes", "exclude_nodes", "root_nodes", "xn_dict")
                                                   for x in ast.walk(t))]
                 r.ob(not sel, {"merge of the cached entries filtered by": [norm_src(t) for t in extra] or None})
+                # ... nor by the entry itself: whatever the key and the value (None, 0, '' are results like any other), the entry is merged
+                from .val import reach_conditions
+
+                ent = {x.id for x in ast.walk(n.target) if isinstance(x, ast.Name)}
+                inner = reach_conditions(n, st_) or []
+                dep = [(c_, p_) for c_, p_ in inner if ent & names_in(c_)]
+                r.ob(not dep, {"in": f.short, "cached entry merged whatever its key / value": not dep})
+                if dep:
+                    r.violate(f"{f.short}: a cached entry is merged only when {('' if dep[0][1] else 'not ') + norm_src(dep[0][0])}", f.loc(st_),
+                              "an entry of the cache file that fails the test never reaches the scheduler: the node is in the file and is "
+                              "executed again all the same (a node that really returned None / 0 / '' repeats its side effects)",
+                              norm_src(dep[0][0]))
                 if sel:
                     r.violate(f"{f.short}: cached entries are merged only for nodes of this executor's selection", f.loc(st_),
                               "a result that is in the file but outside the restart's selection is dropped: the value comes back as None, "
@@ -379,6 +391,23 @@ def cache_shape(ctx: Ctx) -> RuleResult:
         a = c.args[0] if c.args else None
         ok = a is not None and norm_src(a) == "self.results"
         r.ob(ok, {"dumped": norm_src(a) if a is not None else None})
+        # the file is written whenever a cache_in path was given: no other state of the executor decides it
+        from .val import reach_conditions
+
+        from ..ctx import enclosing_stmt_chain
+
+        st = next((x for x in reversed(enclosing_stmt_chain(g.node, c)) if isinstance(x, ast.stmt)), None)
+        conds = reach_conditions(g.node, st) if st is not None else None
+        if conds is None:
+            continue
+        other = [(t, v) for t, v in conds
+                 if any(isinstance(x, ast.Attribute) and x.attr != "cache_in" and dotted(x.value) == "self" for x in ast.walk(t))]
+        r.ob(not other, {"in": g.short, "cache written under": [("" if v else "not ") + norm_src(t) for t, v in conds]})
+        if other:
+            t, v = other[0]
+            r.violate(f"{g.short}: the cache file is written only when {('' if v else 'not ') + norm_src(t)}", g.loc(c),
+                      "an executor created with cache_in=<path> whose run ends without writing the file leaves a stale (or no) file: "
+                      "the restart recomputes what this run had computed", norm_src(t))
     hits = _loader(ctx)
     r.require(len(hits) == 1, "reader not found")
     rf, ld = hits[0]
